@@ -5,20 +5,20 @@ import "regexp"
 func init() {
 	register(&propSpec{ID: "C02", MinFuncs: 40, Check: checkC02,
 		Scope: Scope{Include: []string{"pkg/mpc/sharing/accessstructures/", "pkg/mpc/sharing/scheme/"}}})
-	register(&propSpec{ID: "C04", FrameScope: Scope{Include: []string{"pkg/mpc/"}, Exclude: []string{"pkg/mpc/sharing/", "pkg/mpc/rvole/", "pkg/mpc/session/", "pkg/mpc/zero/przs/"}}, MinFrame: 5, MinFuncs: 150, Check: checkC04,
+	register(&propSpec{ID: "C04", StoreScope: Scope{Include: []string{"pkg/mpc/"}, Exclude: []string{"pkg/mpc/sharing/"}}, MinStores: 50, FrameScope: Scope{Include: []string{"pkg/mpc/"}, Exclude: []string{"pkg/mpc/sharing/", "pkg/mpc/rvole/", "pkg/mpc/session/", "pkg/mpc/zero/przs/"}}, MinFrame: 5, MinFuncs: 150, Check: checkC04,
 		Scope: Scope{Include: []string{"pkg/mpc/", "pkg/network/mpc.go", "pkg/base/errors.go"}, Exclude: []string{"pkg/mpc/sharing/"}}})
 	register(&propSpec{ID: "C05", MinFuncs: 20, Check: checkC05,
 		Scope: Scope{Include: []string{"pkg/mpc/sharing/vss/", "pkg/base/mat/module_valued.go", "pkg/mpc/base.go"}}})
-	register(&propSpec{ID: "C06", MinFuncs: 8, Check: checkC06,
+	register(&propSpec{ID: "C06", StoreScope: Scope{Include: []string{"pkg/mpc/redistribute/", "pkg/mpc/zero/hjky/"}}, MinStores: 3, MinFuncs: 8, Check: checkC06,
 		Scope: Scope{Include: []string{"pkg/mpc/redistribute/", "pkg/mpc/zero/hjky/"}}})
 	register(&propSpec{ID: "C07", Check: checkC07})
-	register(&propSpec{ID: "C08", FrameScope: Scope{Include: []string{"pkg/proofs/"}}, MinFrame: 8, MinFuncs: 100, Check: checkC08,
+	register(&propSpec{ID: "C08", StoreScope: Scope{Include: []string{"pkg/proofs/"}}, MinStores: 3, FrameScope: Scope{Include: []string{"pkg/proofs/"}}, MinFrame: 8, MinFuncs: 100, Check: checkC08,
 		Scope: Scope{Include: []string{"pkg/proofs/"}}})
-	register(&propSpec{ID: "C09", FrameScope: Scope{Include: []string{"pkg/ot/", "pkg/mpc/rvole/"}}, MinFrame: 4, MinFuncs: 30, Check: checkC09,
+	register(&propSpec{ID: "C09", StoreScope: Scope{Include: []string{"pkg/ot/", "pkg/mpc/rvole/"}}, MinStores: 5, FrameScope: Scope{Include: []string{"pkg/ot/", "pkg/mpc/rvole/"}}, MinFrame: 4, MinFuncs: 30, Check: checkC09,
 		Scope: Scope{Include: []string{"pkg/ot/", "pkg/mpc/rvole/"}}})
-	register(&propSpec{ID: "C10", FrameScope: Scope{Include: []string{"pkg/mpc/session/", "pkg/mpc/zero/przs/", "pkg/commitments/hashcom/"}}, MinFrame: 3, MinFuncs: 10, Check: checkC10,
+	register(&propSpec{ID: "C10", StoreScope: Scope{Include: []string{"pkg/mpc/session/"}}, MinStores: 3, FrameScope: Scope{Include: []string{"pkg/mpc/session/", "pkg/mpc/zero/przs/", "pkg/commitments/hashcom/"}}, MinFrame: 3, MinFuncs: 10, Check: checkC10,
 		Scope: Scope{Include: []string{"pkg/mpc/session/", "pkg/mpc/zero/przs/", "pkg/commitments/hashcom/"}}})
-	register(&propSpec{ID: "C11", FrameScope: Scope{Include: []string{"pkg/network/"}}, MinFrame: 1, MinFuncs: 20, Check: checkC11,
+	register(&propSpec{ID: "C11", StoreScope: Scope{Include: []string{"pkg/network/"}}, MinStores: 1, FrameScope: Scope{Include: []string{"pkg/network/"}}, MinFrame: 1, MinFuncs: 20, Check: checkC11,
 		Scope: Scope{Include: []string{"pkg/network/"}}})
 	register(&propSpec{ID: "C12", MinFuncs: 100, Check: checkC12,
 		Scope: Scope{Include: []string{"pkg/"}, KeyRe: regexp.MustCompile(`\.UnmarshalCBOR$|^pkg/base/serde\.`)}})
@@ -42,6 +42,9 @@ func genericGuards(r *Run) {
 		return
 	}
 	r.CheckGuardInventory(r.Prop+".G1", r.Prop+"_guards.json", spec.Scope, spec.MinFuncs)
+	if len(spec.StoreScope.Include) > 0 {
+		r.CheckStoreGuards(r.Prop+".V1", r.Prop+"_stores.json", spec.StoreScope, spec.MinStores)
+	}
 	if len(spec.FrameScope.Include) > 0 {
 		r.CheckFrame(r.Prop+".F1", r.Prop+"_frame.json", spec.FrameScope, spec.MinFrame)
 	}
